@@ -112,7 +112,7 @@ def check_inplace_polls(ctx, fx, RULE):
                     for o in b.origins(st["r"]["o"], through_calls=False):
                         if o.kind == "call" and (b.call_at(o).get("callee") or "").endswith("Clone::clone") and SHARED in " ".join(b.call_at(o).get("argtys", [])):
                             src = b.origins(b.call_at(o)["args"][0], through_calls="plumbing")
-                            if {(x.kind, x.site, x.proj) for x in src} == {(x.kind, x.site, x.proj) for x in direct}:
+                            if {(x.kind, x.site, x.proj) for x in src if x.kind in ("arg", "upvar")} == {(x.kind, x.site, x.proj) for x in direct}:
                                 restored = True
             ctx.require(restored, RULE, "in-place-poll-restores:%s" % f["def"], "the handle's own termination future is polled in place without keeping a share: after completion this handle (and clones / weak addresses made from it) panic on stopped(), clone().await, …", fn=f["def"], site=t["l"])
     return n
